@@ -190,7 +190,16 @@ func (w *walWriterX) WriteBytes(p []byte) (int, error) {
 		w.f.recs = append(w.f.recs, walRec{payload: append([]byte(nil), p...), end: w.f.offset})
 	}
 	x.mu.Unlock()
-	if cp != nil && cp.OpIndex == k && cp.Mode != "before" {
+	if cp != nil && cp.OpIndex == k && cp.Mode == "torn" {
+		// a tear needs flushed-but-unsynced bytes: move the point to the next operation (the Sync)
+		x.mu.Lock()
+		if x.armed == cp {
+			ncp := *cp
+			ncp.OpIndex = k + 1
+			x.armed = &ncp
+		}
+		x.mu.Unlock()
+	} else if cp != nil && cp.OpIndex == k && cp.Mode != "before" {
 		x.crash(w.f, cp, "after-write")
 	}
 	return n, err
@@ -280,6 +289,28 @@ func (x *WalX) DurablePayloads(id string, fn func(p []byte)) {
 				fn(f.recs[i].payload)
 			}
 		}
+	}
+}
+
+// WrittenPayloads calls fn for each payload written to WAL id by this
+// incarnation (synced or not) and for the payloads inherited from the crash image.
+func (x *WalX) WrittenPayloads(id string, fn func(p []byte)) {
+	x.mu.Lock()
+	var ps [][]byte
+	for p := range x.inherited {
+		ps = append(ps, []byte(p))
+	}
+	for _, f := range x.files {
+		if filepath.Base(f.id) != id {
+			continue
+		}
+		for i := range f.recs {
+			ps = append(ps, f.recs[i].payload)
+		}
+	}
+	x.mu.Unlock()
+	for _, p := range ps {
+		fn(p)
 	}
 }
 
